@@ -2,6 +2,7 @@ package main
 
 import (
 	"errors"
+	"math"
 	"sort"
 	"strconv"
 
@@ -180,6 +181,38 @@ func (c14) step(t []string) string {
 		out := fmtInts(r)
 		bump(r)
 		return out + " " + fmtInts(in)
+	case "exceptnan":
+		// Except / ExceptSet over float64 where the value 7 stands for NaN (never equal to anything, itself included, under ==): a NaN is never
+		// excluded, whatever the exclude list holds.  result: both results mapped back (NaN ↦ 7); they must agree
+		conv := func(xs []int) []float64 {
+			out := make([]float64, len(xs), len(xs)+2)
+			for i, x := range xs {
+				if x == 7 {
+					out[i] = math.NaN()
+				} else {
+					out[i] = float64(x)
+				}
+			}
+			return out
+		}
+		back := func(fs []float64) []int {
+			out := []int{}
+			for _, f := range fs {
+				if f != f {
+					out = append(out, 7)
+				} else {
+					out = append(out, int(f))
+				}
+			}
+			return out
+		}
+		in, ex := conv(parseInts(t[1])), conv(parseInts(t[2]))
+		a := fmtInts(back(slices.Except(in, ex)))
+		b := fmtInts(back(slices.ExceptSet(in, maps.NewSetFromSlice(ex))))
+		if a != b {
+			return a + " exceptset-differs:" + b
+		}
+		return a
 	case "exceptset":
 		in := parseInts(t[1])
 		r := slices.ExceptSet(in, maps.NewSetFromSlice(parseInts(t[2])))
